@@ -32,6 +32,9 @@ SPEC = {
         "function-level correspondence of streamSampleStream (overlay export) on generated response bodies and end to end (the decoded "
         "labels of every result range are compared with the served label sets); labels.Hash enters the case files as a finite table",
         "server model: a Prometheus-compatible server answers query_range(start,end,step) with the samples at start+k*step <= end",
+        "only tested, not proved: the query cache.  The end-to-end client is a real FailoverGroup (shared cache); every query is asked "
+        "2-3 times and followed by later queries differing in one parameter (step, end, end by less than a step, start, expression), "
+        "each compared with its own unsliced reference; results handed to callers are compared with a snapshot at the end",
     ],
     "assumptions": [
         "step >= 1s and step <= maxInt64-2h (pint parses lookbackStep/step with model.ParseDuration; smaller steps are outside the theorem)",
@@ -64,7 +67,8 @@ MANIFEST = {
             "touching except two asymmetric holes, MergeRanges on a staircase computes connected components) are exposed as "
             "theorems too. The model is tied to the current source on every run by differential execution of the real functions "
             "(function-level and the real Prometheus.RangeQuery end to end against a fake server) evaluated against the model by coqc, "
-            "plus an implementation-level oracle (result == unsliced reference, termination watchdog).",
+            "plus an implementation-level oracle (result == unsliced reference for the query, its repetitions and later queries on the "
+            "same caching client that differ in one parameter; results never mutated after being returned; termination watchdog).",
     "note": "Coq 8.16.1 kernel+VM, no axioms. Hand-written Z-nanosecond model validated by correspondence, not derived from Go source; "
             "int64 saturation, HTTP/JSON stack and the float64 wire format are outside the model (harness keeps them exact); "
             "labels.Hash injectivity assumed; server sampling semantics (start+k*step) assumed.",
